@@ -9,18 +9,57 @@
 From Coq Require Import String Ascii List NArith Bool.
 From Tink Require Import Bytes UntrustedConsts Untrusted UntrustedSpec UntrustedProofs.
 From Coq Require Import ZArith.
-From Tink Require Import UntrustedSites UntrustedSitesProofs UntrustedPanicSites.
+From Tink Require Import UntrustedSites UntrustedSitesProofs UntrustedPanicSites UntrustedPrefix5Proofs.
 Import ListNotations.
 Open Scope list_scope.
 Open Scope N_scope.
 
 (* keyset.Validate accepts exactly the well-formed keysets: at least one key,
    no nil key or key data, distinct ids, the primary id carried by an ENABLED
-   key, only known statuses and prefix types. *)
+   key, only known statuses and prefix types (TINK, LEGACY, RAW, CRUNCHY and,
+   since /repo 4b80d2c, WITH_ID_REQUIREMENT: UntrustedSpec.key_known). *)
 Theorem C14_validate_iff_wellformed :
   forall ks, validate (Some ks) = true <-> wf_keyset ks.
 Proof. exact validate_iff. Qed.
 Print Assumptions C14_validate_iff_wellformed.
+
+(* OutputPrefixType WITH_ID_REQUIREMENT (5): Validate lets it through; a key of
+   an unregistered type URL carrying it is refused by the fallback key (an
+   error, not a panic); registered types decide in their own parser - ML-DSA
+   public keys accept it (variant NoPrefixWithPrehashID, id requirement = key
+   id, usable), e.g. AES-GCM refuses it (Examples; the differential run has
+   directed cases for every key type). *)
+Theorem C14_prefix5_passes_validate_key :
+  forall kd st id, known_status st = true -> validate_key (Some (mkPK (Some kd) st id pt_with_id_requirement)) = true.
+Proof. exact validate_key_accepts_prefix5. Qed.
+Print Assumptions C14_prefix5_passes_validate_key.
+
+Theorem C14_prefix5_unregistered_type_rejected :
+  forall (L : stdlib) kd idreq, modelled_url kd = false -> parse_key L kd pt_with_id_requirement idreq = Err.
+Proof. exact prefix5_unregistered_rejected. Qed.
+Print Assumptions C14_prefix5_unregistered_type_rejected.
+
+Example C14_prefix5_mldsa_public_accepted :
+  let ks := mkKS 9 [p5_key u_mldsa_pub p5_mldsa_value km_public 9] in
+  validate (Some ks) = true
+  /\ exists e, handle_from_proto p5_std (Some ks) = Ok [e]
+       /\ ekey e = PMlDsaPub /\ ereq e = Some 9 /\ shown_prefix e = 5 /\ prim_ok p5_std (ekey e) = Ok true
+       /\ handle_no_secrets p5_std (Some ks) = Ok [e].
+Proof. exact prefix5_mldsa_public_accepted. Qed.
+
+Example C14_prefix5_symmetric_rejected_by_its_parser :
+  let ks := mkKS 9 [p5_key u_aes_gcm ([26; 16] ++ repeat 7 16%nat) km_symmetric 9] in
+  validate (Some ks) = true /\ handle_from_proto p5_std (Some ks) = Err /\ handle_no_secrets p5_std (Some ks) = Err.
+Proof. exact prefix5_symmetric_rejected_by_its_parser. Qed.
+
+(* NewHandleWithNoSecrets since /repo b141c20: the handle is the one of the
+   cleartext construction and no key object of it serialises to material other
+   than public or remote (the label of the input alone is not trusted). *)
+Theorem C14_no_secrets_handle_holds_no_secret :
+  forall (L : stdlib) ks h, handle_no_secrets L ks = Ok h ->
+    handle_from_proto L ks = Ok h /\ handle_has_secrets h = false.
+Proof. exact handle_no_secrets_inv. Qed.
+Print Assumptions C14_no_secrets_handle_holds_no_secret.
 
 (* the rejections the property lists, one by one *)
 Theorem C14_nil_and_empty_rejected :
@@ -43,7 +82,7 @@ Print Assumptions C14_no_enabled_primary_rejected.
 Theorem C14_unknown_enum_rejected :
   forall ks pk, In (Some pk) (ks_keys ks) ->
     (~ (k_status pk = 1 \/ k_status pk = 2 \/ k_status pk = 3)
-     \/ ~ (k_prefix pk = 1 \/ k_prefix pk = 2 \/ k_prefix pk = 3 \/ k_prefix pk = 4)) ->
+     \/ ~ (k_prefix pk = 1 \/ k_prefix pk = 2 \/ k_prefix pk = 3 \/ k_prefix pk = 4 \/ k_prefix pk = 5)) ->
     validate (Some ks) = false.
 Proof. exact unknown_enum_rejected. Qed.
 Print Assumptions C14_unknown_enum_rejected.
